@@ -302,11 +302,16 @@ def gen_sampler_case(rng, kind, preset=None):
     c["params"] = preset["params"] if "params" in preset else _fill_params(rng, gen_params(rng))
     if len(c["params"]) > 1 and rng.random() < 0.12 and not group:
         c["param_mode"] = "joined"
+    if c["params"] and not group and c.get("param_mode") != "joined":
+        c["param_change"] = ["inplace", "rebind", "both", None][int(c["seed"]) % 4]
     if "defaults" in preset:
         c["defaults"] = preset["defaults"]
     else:
         c["defaults"] = {"cdef": np.round(rng.uniform(0.5, 1.5, size=int(rng.integers(1, 3))), 3).tolist()} \
             if rng.random() < 0.25 else {}
+        if c["defaults"] and rng.random() < 0.5:
+            # a second optional argument with a clearly different default value (the order of the defaults matters)
+            c["defaults"]["ddef"] = np.round(rng.uniform(2.5, 4.0, size=len(c["defaults"]["cdef"])), 3).tolist()
     if rng.random() < 0.5:
         c["weight"] = round(float(rng.uniform(0.1, 5.0)), 3)
     # residual
